@@ -203,7 +203,7 @@ def positive_program(ctx, name):
     return _POS_CACHE[name]
 
 
-def positive_examples(ctx, chk, names, rule='positive-example'):
+def positive_examples(ctx, chk, names, rule='positive-example', want_alloc=False):
     """the zero-expected rules must fire on the tiny positive examples kept in /verif/positive"""
     from .report import Check
     chk.rule(rule, 'self-test: rules whose expected count on the library is zero are run on /verif/positive/*.c and must '
@@ -226,6 +226,15 @@ def positive_examples(ctx, chk, names, rule='positive-example'):
                 chk.ok(rule, 'positive:census', None, 'census reported %s and accepted the const placeholder' % bad)
             else:
                 raise AnalysisBroken('positive example static_written: census reported %s, expected %s' % (bad, want))
+            if want_alloc:
+                from . import memrules
+                tmp2 = Check('tmp')
+                memrules.rule_who_may_call(c2, tmp2, eng, prog=prog, irp=irp)
+                badk = [o.key for o in tmp2.obls if not o.ok]
+                if badk == ['libc:malloc@pos_direct_alloc']:
+                    chk.ok(rule, 'positive:who-may-call', None, 'direct malloc outside the default manager reported')
+                else:
+                    raise AnalysisBroken('positive example: direct allocator call not reported (%s)' % badk)
             # write through a read-only input
             s = eng.summary('pos_write_input')
             if any(e.obj[0] == 'P:r' for e in s.effects.values()):
